@@ -23,7 +23,7 @@ EXPLANATION = (
     "p - k/m on the member of rank k, zero beyond and on failed members, all weights >= 0 and summing to p. Proved by z3 on the real "
     "_get_cvar_weights_from_percentile and on the objective/constraint flavours (ranking key and sign convention per bound kind) for all real "
     "values (ties admitted), every failure mask and ALL percentiles in (0,1] (symbolic p; int(p*m) forks over its feasible values), per ensemble "
-    "size n <= 3 (quick) / 4 (thorough). In real arithmetic the one-ulp hazards of the statement do not exist; they are decided by a second, BIT-PRECISE run of the same real "
+    "size n <= 3 (quick) / 6 (thorough). In real arithmetic the one-ulp hazards of the statement do not exist; they are decided by a second, BIT-PRECISE run of the same real "
     "kernel in which the percentile is an IEEE-754 binary64 term (z3 FloatingPoint theory, round-to-nearest-even): for each ensemble size n <= 24 (quick) / 96 (thorough) and for "
     "ALL doubles p in (0,1] every weight is >= 0, positive weights form a prefix of the ranking, at most one member beyond the full shares is active and no weight exceeds a full "
     "share by more than rounding. A bounded native grid (all a/b with b <= 20 and b = 10n, n <= 7, every failure mask) is kept as a cross-check."
@@ -213,8 +213,8 @@ MANIFEST = {
     "category": "proof",
     "text": "Deductive: the CVaR post-condition (1/m on the worst members until mass p, remainder on the boundary member, zero elsewhere and on failures, "
             "non-negative, sum p; ranking key and sign convention per objective / bound kind; all-failed => TOO_FEW_REALIZATIONS and no internal exception) "
-            "discharged by z3 on the real kernel and filter methods for all real values, all percentiles in (0,1] and every failure mask, per n <= 3 (quick) / 4 (thorough). "
+            "discharged by z3 on the real kernel and filter methods for all real values, all percentiles in (0,1] and every failure mask, per n <= 3 (quick) / 6 (thorough). "
             "The floating-point clause (p*n within an ulp of an integer) is proved bit-precisely (QF_FP) for all doubles p per ensemble size n <= 24 / 96.",
-    "note": "np.argsort by contract; rank/mass clauses over the reals for n <= 3/4; rounding clause bit-precise (z3 FloatingPoint) for all doubles per n <= 24/96; bounded in ensemble size",
+    "note": "np.argsort by contract; rank/mass clauses over the reals for n <= 3/6; rounding clause bit-precise (z3 FloatingPoint) for all doubles per n <= 24/96; bounded in ensemble size",
     "technique": "contract-based deductive verification: symbolic execution of the real source under sidecar contracts, VCs discharged by z3/cvc5; bounded run-time contract checking as stand-in",
 }
